@@ -290,3 +290,55 @@ func Scalars(level int) []*big.Int {
 
 	return out
 }
+
+// WindowScalars returns the scalars a windowed or table-driven multiplication distinguishes: a single window digit
+// d * 2^(w*i) for every width w in 5..8, every digit value and every aligned position; every digit of width 4 and 5
+// at every bit offset (sliding windows); and two adjacent aligned windows with digits around the signed-recoding
+// threshold 2^(w-1). All reduced into [0, n).
+func WindowScalars() []*big.Int {
+	set := map[string]*big.Int{}
+	add := func(v *big.Int) {
+		v = ref.Mod(v, ref.N)
+		set[v.Text(16)] = v
+	}
+
+	for w := uint(5); w <= 8; w++ {
+		for pos := uint(0); pos < 256; pos += w {
+			for d := int64(1); d < 1<<w; d++ {
+				add(new(big.Int).Lsh(big.NewInt(d), pos))
+			}
+		}
+	}
+
+	for w := uint(4); w <= 5; w++ {
+		for pos := uint(0); pos < 256; pos++ {
+			for d := int64(1); d < 1<<w; d += 2 {
+				add(new(big.Int).Lsh(big.NewInt(d), pos))
+			}
+		}
+	}
+
+	for _, w := range []uint{4, 5, 6, 8} {
+		h := int64(1) << (w - 1)
+		ds := []int64{1, h - 1, h, h + 1, 2*h - 1}
+
+		for pos := uint(0); pos+w < 256; pos += w {
+			for _, d1 := range ds {
+				for _, d2 := range ds {
+					v := new(big.Int).Lsh(big.NewInt(d2), w)
+					v.Add(v, big.NewInt(d1))
+					add(v.Lsh(v, pos))
+				}
+			}
+		}
+	}
+
+	out := make([]*big.Int, 0, len(set))
+	for _, v := range set {
+		out = append(out, v)
+	}
+
+	sort.Slice(out, func(i, j int) bool { return out[i].Cmp(out[j]) < 0 })
+
+	return out
+}
